@@ -189,6 +189,10 @@ def gamma2(tier, seed):
             macros = [{"name": "@rep", "args": ["p-cnt"], "pattern": [mk(form)]}]
             doc = doc_of(["push", {"@rep": None, "p-cnt": cnt}, "ret"], extra={"macros": macros})
             out.append({"id": f"g2/{kind}/macro_arg/{val}", "doc": doc, "pattern": ["push", mk(val), "ret"], "feature": f"times_{kind}_macro_arg"})
+    # alternatives that each carry the SAME repetition: repetitions do not mix alternatives
+    for t_ in (2, {"min": 1, "max": 2}):
+        out.append({"id": f"g2/or_of_repeated/{t_}", "doc": doc_of(["push", {"$or": [{"mov": {"times": t_}}, {"add": {"times": t_}}]}, "ret"]), "feature": "times_inside_or_alternatives"})
+    out.append({"id": "g2/or_of_repeated_groups", "doc": doc_of(["push", {"$or": [{"$and": ["mov", "add"], "times": 2}, {"$not": ["mov"], "times": 2}]}, "ret"]), "feature": "times_inside_or_alternatives", "lemmas": ("AEM", "EA", "NE", "VAL")})
     # a ranged repetition INSIDE the argument of a $not (followed by something): every run length counts
     for kind, mk, plain in bodies[:4]:
         out.append({"id": f"g2/{kind}/inside_not", "doc": doc_of(["push", {"$not": [{"$and": [mk({"min": 1, "max": 3}), "ret"]}]}, "call"]), "feature": f"times_{kind}_inside_not", "lemmas": ("AEM", "EA", "NE", "VAL")})
@@ -395,6 +399,9 @@ def gamma4(tier, seed):
         out.append({"id": f"g4/operand_nested/{nm}", "doc": doc_of([{"mov": ops}, {"$not": ["call"]}, "call"]), "feature": "not_operand_nested"})
     for nm, arg in (("or", {"$or": ["a", "b"]}), ("notnot", {"$not": ["a"]}), ("and_any", {"$and_any_order": ["a"]})):
         out.append({"id": f"g4/operand_group/{nm}", "doc": doc_of([{"mov": [{"$not": [arg]}, "c"]}, "call"]), "feature": "not_operand_group"})
+    # a REPEATED operand-level $not followed by a named operand (the repetition gives operands back when it must)
+    for t_ in ({"min": 0, "max": 2}, {"min": 1, "max": 2}, 2):
+        out.append({"id": f"g4/operand_repeated/{t_}", "doc": doc_of([{"imul": [{"$not": ["a"], "times": t_}, "b"]}, "call"]), "feature": "not_operand_repeated"})
     # an operand-level $not next to a $deref operand (either side): the sibling's kind must not change what $not consumes
     D4 = {"$deref": {"main_reg": "rbp", "constant_offset": "0x8"}}
     for nm, ops in (("after_deref", [D4, {"$not": ["rax"]}]), ("before_deref", [{"$not": ["rax"]}, D4]), ("between_derefs", [D4, {"$not": ["rax"]}, {"$deref": {"main_reg": "rsi"}}])):
@@ -445,6 +452,9 @@ def gamma7(tier, seed):
         ("opt_not", {"$not": ["mov"], "times": {"min": 0, "max": 2}}),
         ("or_ops", {"$or": [{"mov": ["a", "b"]}, "add"]}),
     ]
+    for op_ in ("$and_any_order", "$or", "$and"):
+        out.append({"id": f"g7/operand_group_end/{op_}", "doc": doc_of([{"add": [{op_: ["a", "b"]}]}, "ret"]), "feature": "operand_group_end", "lemmas": L})
+        out.append({"id": f"g7/operand_group_only/{op_}", "doc": doc_of([{"add": [{op_: ["a", "b"]}]}]), "feature": "operand_group_end", "lemmas": L})
     for nm, X in trail:
         out.append({"id": f"g7/trail/{nm}", "doc": doc_of(["ret", X]), "feature": "trail_" + nm, "lemmas": L})
         out.append({"id": f"g7/only/{nm}", "doc": doc_of(["ret", X, "call"]), "feature": "inner_" + nm, "lemmas": L})
@@ -590,6 +600,8 @@ def gamma5(tier, seed):
     # documented upper-case suffixes
     for nm, keys in (("&genreg-16", list("abcd")), ("&basereg-64", ["bp"]), ("&genreg-8h", list("abcd"))):
         T(f"reg/width_token_in_name/{nm}", [{"inc": [nm]}, {"push": [f"{nm}.64"]}, {"pop": [f"{nm}.16"]}, {"dec": [f"{nm}.32"]}], [nm], {nm: keys}, "cap_register_width_token_in_name", domain="regs", lemmas=("AEM",))
+    T("reg/genreg/upper_8H_first", [{"mov": ["&genreg.8H"]}, {"push": ["&genreg.64"]}], ["&genreg"], {"&genreg": list("abcd")}, "cap_register_upper_suffix", domain="regs", lemmas=("AEM",), pattern=[{"mov": ["&genreg.8h"]}, {"push": ["&genreg.64"]}])
+    T("reg/genreg/upper_8L_first", [{"mov": ["&genreg.8L"]}, {"add": ["&genreg.8H"]}], ["&genreg"], {"&genreg": list("abcd")}, "cap_register_upper_suffix", domain="regs", lemmas=("AEM",), pattern=[{"mov": ["&genreg.8l"]}, {"add": ["&genreg.8h"]}])
     T("reg/genreg/upper_8H", [{"mov": ["&genreg.64"]}, {"add": ["&genreg.8H"]}], ["&genreg"], {"&genreg": list("abcd")}, "cap_register_upper_suffix", domain="regs", lemmas=("AEM",), pattern=[{"mov": ["&genreg.64"]}, {"add": ["&genreg.8h"]}])
     T("reg/genreg/upper_8L", [{"mov": ["&genreg.64"]}, {"add": ["&genreg.8L"]}], ["&genreg"], {"&genreg": list("abcd")}, "cap_register_upper_suffix", domain="regs", lemmas=("AEM",), pattern=[{"mov": ["&genreg.64"]}, {"add": ["&genreg.8l"]}])
     # register capture inside a $deref
